@@ -154,6 +154,10 @@ func runC09(c *Ctx) {
 	// what an interrupted label sync leaves half done is found again only if the listing by the upgrade label is made
 	// whatever the listing by selector returned (the listing rule of C18.4, as a clause)
 	c.withOnly(map[string]string{"C18.4-both-listings-on-every-call": "C09.3-half-done-work-is-found-again"}, nil, "C09.3-history-listings", 1, func() { runC18(c) })
+	// "the next reconcile from the stored state completes the work": the trimming of the history is not conditional on
+	// anything an earlier, failed pass has already stored -- a pass that ends well has gone through the truncation, so a
+	// revision delete that failed (or a crash after the status write) is made up for by the retry (C13.2, as a clause)
+	c.withOnly(map[string]string{"C13.2-success-only-after-the-truncation": "C09.3-a-failed-trim-is-retried"}, nil, "C09.3-truncation-on-every-good-pass", 1, func() { runC13(c) })
 	c.preconditionRejections("C09.4")
 	c.statusRetryShape("C09.5")
 }
